@@ -77,8 +77,9 @@ struct Recorder
 };
 inline Recorder& recorder()
 {
-  static Recorder r;
-  return r;
+  // never destroyed: quill's singletons flush their sinks during static destruction
+  static Recorder* r = new Recorder;
+  return *r;
 }
 
 struct SinkThrow : std::runtime_error
